@@ -11,6 +11,7 @@
 -/
 import P2P.Model.PdbRead
 import P2P.Proofs.PdbLemmas
+import P2P.Proofs.PdbChainLemmas
 
 namespace P2P.Props.C07
 open P2P P2P.PdbRead
@@ -91,6 +92,68 @@ theorem drop_water_witness : serials (ingest true [l1, w1, str "END\n"]) = some 
 /-- MODEL without serial: only the first model -/
 theorem model_witness :
     serials (ingest false [str "MODEL\n", l1, l2, str "ENDMDL\n", str "END\n", str "MODEL 2\n", l1, l2, str "ENDMDL\n"]) = some [[1, 2]] := by
+  decide +kernel
+
+/-! ### Records without a chain identifier (`Biomolecule.__init__`; round 4)
+
+"One atom per chain, residue number, insertion code and atom name": for records whose chain column
+is blank the chain is what `Biomolecule.__init__` makes of the TER records. -/
+
+open P2P.Proofs.PdbChain in
+/-- **one TER is enough**: the pre-count of chains is one more than the number of TER records, so
+every file with at least one TER has blank chain identifiers replaced (the off-by-one of the round-4
+seeded defect `num_chains = number of TER` is excluded by this line of the model and shown by the tie) -/
+theorem one_ter_is_enough (recs : List Rec) (h : Rec.ter ∈ recs) :
+    1 + (recs.filter (· = .ter)).length > 1 := by
+  have : 0 < (recs.filter (· = .ter)).length := by
+    apply List.length_pos_of_mem (a := Rec.ter)
+    simp [List.mem_filter, h]
+  omega
+
+open P2P.Proofs.PdbChain in
+/-- **the chain letter of a blank record is the number of TER records before it**: a non-water
+record without chain identifier, in a file whose pre-count exceeds one, is filed under the letter at
+position `count` of the 62-letter alphabet; a TER advances `count` by one and changes nothing else;
+every other atom record keeps the identifier it came with; no atom record changes `count`. -/
+theorem blank_record_chain_letter (n : Nat) (s s' : GState) (a0 : AtomRec) (hs : s.stopped = false)
+    (h : gstep n s (.atom a0) = .ok s') :
+    s'.count = s.count ∧
+    ((a0.chain = [] ∧ n > 1 ∧ isWaterName a0.resName = false) →
+      ∃ c rest, chainAlphabet.drop s.count = c :: rest ∧ filedChain s' = some [c]) ∧
+    (¬ (a0.chain = [] ∧ n > 1 ∧ isWaterName a0.resName = false) → filedChain s' = some a0.chain) :=
+  atom_step n s s' a0 hs h
+
+open P2P.Proofs.PdbChain in
+theorem ter_advances_letter (n : Nat) (s s' : GState) (hs : s.stopped = false) (h : gstep n s .ter = .ok s') :
+    s'.count = s.count + 1 ∧ s'.chains = s.chains ∧ s'.prev = s.prev :=
+  ter_counts n s s' hs h
+
+open P2P.Proofs.PdbChain in
+/-- **different TER counts, different chains**: two blank records taken in at different TER counts
+are filed under different chain identifiers (the 62 letters are pairwise different) — residues of
+two TER-separated chains that re-use residue numbers are never merged. -/
+theorem blank_records_separated (n : Nat) (s1 s1' s2 s2' : GState) (a b : AtomRec)
+    (h1s : s1.stopped = false) (h2s : s2.stopped = false)
+    (ha : a.chain = [] ∧ n > 1 ∧ isWaterName a.resName = false)
+    (hb : b.chain = [] ∧ n > 1 ∧ isWaterName b.resName = false)
+    (h1 : gstep n s1 (.atom a) = .ok s1') (h2 : gstep n s2 (.atom b) = .ok s2')
+    (hc : s1.count ≠ s2.count) : filedChain s1' ≠ filedChain s2' := by
+  obtain ⟨c1, r1, hd1, hf1⟩ := (atom_step n s1 s1' a h1s h1).2.1 ha
+  obtain ⟨c2, r2, hd2, hf2⟩ := (atom_step n s2 s2' b h2s h2).2.1 hb
+  rw [hf1, hf2]
+  intro he
+  have hcc : c1 = c2 := by
+    have := Option.some.inj he
+    exact (List.cons.inj this).1
+  subst hcc
+  exact hc (drop_head_inj _ _ c1 r1 r2 hd1 hd2)
+
+/-- non-vacuity: two blank-chain residues with the same number, one TER between them, none at the
+end, are ingested as two residues (chains A and B) -/
+theorem blank_ter_witness :
+    serials (ingest false [str "ATOM      1  N   ALA     1      11.000  12.000  13.000  1.00  0.00\n",
+                           str "TER\n",
+                           str "ATOM      2  N   ALA     1      21.000  22.000  23.000  1.00  0.00\n"]) = some [[1], [2]] := by
   decide +kernel
 
 end P2P.Props.C07
